@@ -566,9 +566,9 @@ pub fn case(c: &Case, obs: &mut Obs) -> PResult {
 
 pub fn special_values(f32_: bool) -> Vec<f64> {
     if f32_ {
-        vec![f64::NAN, f64::INFINITY, f64::NEG_INFINITY, 0.0, -0.0, -1.5, 1e30, 1e-30, -1e30, f32::from_bits(1) as f64, f32::MAX as f64, f32::MIN_POSITIVE as f64]
+        vec![f64::NAN, -f64::NAN, f64::INFINITY, f64::NEG_INFINITY, 0.0, -0.0, -1.5, 1e30, 1e-30, -1e30, f32::from_bits(1) as f64, f32::MAX as f64, f32::MIN_POSITIVE as f64]
     } else {
-        vec![f64::NAN, f64::INFINITY, f64::NEG_INFINITY, 0.0, -0.0, -1.5, 1e200, 1e-200, -1e200, 5e-324, f64::MAX, f64::MIN_POSITIVE]
+        vec![f64::NAN, -f64::NAN, f64::INFINITY, f64::NEG_INFINITY, 0.0, -0.0, -1.5, 1e200, 1e-200, -1e200, 5e-324, f64::MAX, f64::MIN_POSITIVE]
     }
 }
 const VALID: [f64; 9] = [3.5, 0.1, 12.25, 7.0, 1.1, 5.75, 2.0, 9.125, 0.5];
